@@ -24,6 +24,17 @@ class ToolError(Exception):
     pass
 
 
+class CodeCrash(Exception):
+    """The harness process was killed by a signal while executing code under test (an abort
+    from a panic inside an extern "sysv64" bus helper, a fault in translated code).
+    This is an observation about /repo, not a tool failure."""
+    def __init__(self, cmd, rc, stderr):
+        Exception.__init__(self, "harness died rc=%s: %s" % (rc, " ".join(map(str, cmd[:6]))))
+        self.cmd = [str(c) for c in cmd]
+        self.rc = rc
+        self.stderr = stderr[-1500:]
+
+
 def seed():
     try:
         return int(os.environ.get("VERIF_SEED", "1"))
@@ -105,6 +116,8 @@ def gbv(args, jit=False, timeout=3600, env=None, stdin=None):
     if env:
         e.update(env)
     rc, out, err = sh([path] + [str(a) for a in args], cwd=VERIF, env=e, timeout=timeout, input=stdin)
+    if rc < 0:
+        raise CodeCrash(["gbv"] + list(args), rc, err)
     if rc != 0:
         sys.stderr.write(err[-3000:])
         raise ToolError("harness command failed rc=%s: gbv %s" % (rc, " ".join(map(str, args[:4]))))
